@@ -535,6 +535,38 @@ func init() {
 				return true
 			}, "satisfied policies of two inputs swapped")
 		}},
+		probeRow{"A2-v2-siafund", func(w *World, n *Node) {
+			sc := n.fork()
+			if !sc.v2ok() {
+				return
+			}
+			for _, id := range sc.store.sortedSF() {
+				e := sc.store.SF[id]
+				wl, ai := w.ownerOf(e.SiafundOutput.Address)
+				if wl == nil || !wl.canSatisfyNow(sc.s, ai) {
+					continue
+				}
+				base := types.V2Transaction{SiafundInputs: []types.V2SiafundInput{{Parent: e.Copy(), ClaimAddress: w.advAddr()}}, SiafundOutputs: []types.SiafundOutput{{Value: e.SiafundOutput.Value, Address: w.advAddr()}}}
+				if !w.signAllV2(sc.s, &base) || len(base.SiafundInputs[0].SatisfiedPolicy.Signatures) == 0 {
+					continue
+				}
+				verr, ok := sc.offer(nil, []types.V2Transaction{base}, offerOpt{})
+				w.expect("C03", "A2-v2-sf-control", verr, ok, true, "signed v2 siafund transfer")
+				t := base.DeepCopy()
+				t.SiafundOutputs[0].Address[1] ^= 1
+				verr, ok = sc.offer(nil, []types.V2Transaction{t}, offerOpt{})
+				w.expect("C03", "A2-v2-sf-output-address", verr, ok, false, "siafund output address changed after signing")
+				t = base.DeepCopy()
+				t.SiafundInputs[0].SatisfiedPolicy.Signatures[0][5] ^= 2
+				verr, ok = sc.offer(nil, []types.V2Transaction{t}, offerOpt{})
+				w.expect("C03", "A2-v2-sf-sig-bitflip", verr, ok, false, "siafund input signature bit flipped")
+				t = base.DeepCopy()
+				t.SiafundInputs[0].ClaimAddress[1] ^= 1
+				verr, ok = sc.offer(nil, []types.V2Transaction{t}, offerOpt{})
+				w.expect("C03", "A2-v2-sf-claim-address", verr, ok, false, "claim address of a signed v2 siafund input changed after signing")
+				return
+			}
+		}},
 		probeRow{"A4-attestation", func(w *World, n *Node) {
 			sc := n.fork()
 			if !sc.v2ok() {
